@@ -459,6 +459,7 @@ def build_corpus(tier):
     scs += random_bundle_programs(tier)
     scs += defer_pair_scenarios(tier)
     scs += double_suspension_scenarios(tier)
+    scs += two_call_scenarios(tier)
     for pn, lst in sweep(["collide", "emptysave", "ckptinb", "dupopen", "cfg", "cfginb", "cfgdrop", "multimon"], ["pause", "suspend"] if quick_tier(tier) else ["pause", "suspend", "abort", "defer"],
                          ["resume"], record_intr=True):
         if isinstance(lst, dict):
@@ -486,7 +487,7 @@ def build_corpus(tier):
         exp = base.get(key, []) if "|nori" not in r["id"] else base.get(key, [])
         out.append({"id": r["id"], "events": exp + r["events"], "outcomes": r["outcomes"], "final": r["final"],
                     "conf": r["id"].split("|")[0] not in NOT_CONFORMANCE and not r["id"].startswith("sus:")
-                            and not r["id"].startswith("rb") and not r["id"].startswith("mon|notify") and "clear_sub:raise" not in r["id"]})
+                            and not r["id"].startswith("rb") and not r["id"].startswith("mon|notify") and not r["id"].startswith("2call:") and "clear_sub:raise" not in r["id"]})
     return {"traces": out, "wall": time.time() - t0}
 
 
@@ -557,6 +558,8 @@ def monitor_scenarios(tier):
     n = run_one(base)["points"]
     for p in range(n + 1):
         out.append(with_inject(base, [{"at": p, "kind": "update", "arg": "mon1"}], [], f"update@{p}"))
+        # an update while the engine is paused (made by the main thread between the pause and the resume)
+        out.append(with_inject(base, [{"at": p, "kind": "pause"}], ["update:mon1", "resume", "resume"], f"pause@{p}|update-while-paused|resume"))
         for kind in ("pause", "suspend"):
             for q in ((p + 1,) if tier == "quick" else (p + 1, p + 3)):
                 inj = [{"at": p, "kind": kind, "arg": "f1"}, {"at": q, "kind": "update", "arg": "mon1"}]
@@ -657,6 +660,32 @@ def double_suspension_scenarios(tier):
                     inj.append({"at": p + 2, "kind": "release", "arg": "f1"})
                 inj += [{"at": p + 12, "kind": "suspend", "arg": "f2"}, {"at": p + 14, "kind": "release", "arg": "f2"}]
                 out.append(with_inject(base, inj, ["resume"] * 4, f"{first}@{p}+suspend@{p + 12}"))
+    return out
+
+
+def two_call_scenarios(tier):
+    """two RE(...) calls on the same engine: the first one ends in every way (completion, abort/stop/halt while running,
+    while suspended, from a pause, failed pause, error); the second one monitors a signal and is paused with an update"""
+    out = []
+    second = {"plan": prog_plan("mon"), "inject": [{"at": 9, "kind": "pause"}], "decisions": ["update:mon1", "resume", "resume"]}
+    firsts = []
+    for plan in ("mon", "fin") if tier == "quick" else ("mon", "fin", "move", "err", "openonly"):
+        base = base_scenario(plan)
+        n = run_one(base)["points"]
+        pts = range(3, n + 1, 3 if tier == "quick" else 1)
+        for p in pts:
+            for kind in ("abort", "stop", "halt"):
+                firsts.append((plan, f"{kind}@{p}", [{"at": p, "kind": kind}], []))
+                firsts.append((plan, f"suspend@{p}+{kind}@{p + 3}", [{"at": p, "kind": "suspend", "arg": "f1"}, {"at": p + 3, "kind": kind}], []))
+                # ... and while the suspension is waiting for its release
+                firsts.append((plan, f"suspend@{p}+{kind}@blocked", [{"at": p, "kind": "suspend", "arg": "f1"}, {"at": "blocked", "kind": kind}], []))
+            firsts.append((plan, f"pause@{p}|abort", [{"at": p, "kind": "pause"}], ["abort"]))
+        firsts.append((plan, "plain", [], []))
+    for plan, tag, inj, dec in firsts:
+        sc = with_inject(base_scenario(plan), inj, dec, tag + "|then-mon")
+        sc["then"] = [copy.deepcopy(second)]
+        sc["id"] = "2call:" + sc["id"]
+        out.append(sc)
     return out
 
 
@@ -836,7 +865,8 @@ def check_property(ctx, prop, proj="full", extra_rule=""):
         ex = []
         for i, upto in sorted(rejected.items())[:5]:
             t = traces[i]
-            ex.append(f"{t['id']} (accepted {upto} of {len(t['events'])} events, next {t['events'][upto][:4] if upto < len(t['events']) else 'END'})")
+            pe = [e for e in t["events"] if e[0] in PROJECTIONS["full"]]
+            ex.append(f"{t['id']} (accepted {upto} of {len(pe)} events, next {pe[upto][:4] if upto < len(pe) else 'END'})")
         ctx.note(f"SPEC-DRIFT: {len(rejected)} implementation traces are not behaviours of RE.tla (the implementation or the specification "
                  f"changed); property verdicts below come from the monitors evaluated on the recorded events. Examples: {ex}")
         print(f"NOTE: {len(rejected)} of {len(traces)} implementation traces are not accepted by RE.tla (spec drift), e.g. {ex[0]}")
